@@ -2,6 +2,7 @@ package sim
 
 import (
 	"go.etcd.io/raft/v3"
+	pb "go.etcd.io/raft/v3/raftpb"
 )
 
 // Macros added after the third round of seeded changes. They are still pure
@@ -27,6 +28,18 @@ func (s *Sim) connect(a, b uint64) {
 
 func (s *Sim) isLeader(n *Node) bool {
 	return n != nil && n.Up && n.RN.BasicStatus().RaftState == raft.StateLeader
+}
+
+// leadsAbove: n leads a term above t.
+func (s *Sim) leadsAbove(n *Node, t uint64) bool {
+	return s.isLeader(n) && n.RN.BasicStatus().GetTerm() > t
+}
+
+func (s *Sim) termOf(n *Node) uint64 {
+	if n == nil || !n.Up {
+		return 0
+	}
+	return n.RN.BasicStatus().GetTerm()
 }
 
 // expireLeases ticks every running node that cand can reach through an
@@ -129,13 +142,23 @@ func (s *Sim) Comeback(p *Profile) {
 	}
 	mode := d.Int(0, 2, "mode") / 2 // 0,0,1
 	stallF := F.Opts.Async && d.Int(0, 2, "stallF") > 0
+	// in the flip-flop the append thread keeps working (the follower's
+	// rejections travel with it) and only its acknowledgements to raft lag
+	ackOnly := mode == 1 || d.Int(0, 2, "ackonly") == 0
+	stall := func(on bool) {
+		if ackOnly {
+			F.SlowAck = on
+		} else {
+			F.SlowAppend = on
+		}
+	}
 	if stallF {
-		F.SlowAppend = true
+		stall(true)
 		s.Stats.inc("async.stalled")
 	}
 	defer func() {
 		if stallF {
-			F.SlowAppend = false
+			stall(false)
 		}
 	}()
 	// optional shared prefix: one entry everybody gets while F's disk is
@@ -153,6 +176,7 @@ func (s *Sim) Comeback(p *Profile) {
 	if d.Int(0, 1, "read1") == 1 && L.Up {
 		s.ReadIndex(L, "")
 	}
+	firstOld := L.RN.VerifState().LastIndex + 1
 	k1 := d.Int(1, 3, "oldprops")
 	for i := 0; i < k1 && L.Up; i++ {
 		s.Propose(L, s.drawSize(p))
@@ -199,7 +223,32 @@ func (s *Sim) Comeback(p *Profile) {
 		if !L.Up {
 			return
 		}
-		if s.electAmong(L) {
+		// L may still believe it leads the old term: let it hear from the
+		// others first, then win a term above C's
+		tC := s.termOf(C)
+		for i := 0; i < 2*L.Opts.HeartbeatTick && L.Up; i++ {
+			s.tick(L)
+		}
+		s.stabilize(3)
+		if s.isLeader(L) && !s.leadsAbove(L, tC) {
+			// without CheckQuorum/PreVote nobody tells a stale leader: a vote
+			// request of a higher term does
+			for _, n := range rest {
+				if n.ID != C.ID && n.Up {
+					s.TickUntilCampaign(n)
+					s.stabilize(3)
+					break
+				}
+			}
+		}
+		for i := 0; i < 4 && L.Up && !s.leadsAbove(L, tC); i++ {
+			if i > 0 {
+				s.expireLeases(L)
+			}
+			s.TickUntilCampaign(L)
+			s.stabilize(6)
+		}
+		if s.leadsAbove(L, tC) {
 			s.Stats.inc("macro.flipflop_reelected")
 			if L.Up && d.Int(0, 1, "prop3") == 1 {
 				s.Propose(L, s.drawSize(p))
@@ -208,9 +257,50 @@ func (s *Sim) Comeback(p *Profile) {
 			for i := 0; i < 2*L.Opts.HeartbeatTick && L.Up; i++ {
 				s.tick(L)
 			}
+			// run until L's re-append of its old entries is on its way to F
+			// (F's rejections of L's probes travel with its append thread)
+			var reapp *Flight
+			for r := 0; r < 8 && reapp == nil; r++ {
+				for _, n := range s.upNodes() {
+					s.service(n)
+				}
+				for _, fl := range s.Net.Pool {
+					if fl.From == L.ID && fl.To == F.ID && fl.M.GetType() == pb.MsgApp && len(fl.M.GetEntries()) > 0 &&
+						fl.M.GetEntries()[0].GetIndex() <= firstOld && !fl.Held && !s.Net.blocked(fl.From, fl.To) {
+						reapp = fl
+						fl.Held = true
+						break
+					}
+				}
+				if reapp == nil && !s.stabilize(1) {
+					break
+				}
+			}
+			if reapp != nil {
+				reapp.Held = false
+				if stallF && F.Up && L.Up {
+					// F appends them while the write of C's version is done
+					// and this one is not; only then the acknowledgement of
+					// the very first write arrives
+					s.Stats.inc("macro.flipflop_aba")
+					F.SlowAppend = true
+					for i, fl := range s.Net.Pool {
+						if fl == reapp {
+							s.Deliver(i, false)
+							break
+						}
+					}
+					stall(false)
+					stallF = false
+					if F.Up {
+						s.service(F)
+					}
+					F.SlowAppend = false
+				}
+			}
 			s.stabilize(4)
 			if stallF {
-				F.SlowAppend = false
+				stall(false)
 				stallF = false
 				s.stabilize(4)
 			}
@@ -240,7 +330,15 @@ func (s *Sim) Comeback(p *Profile) {
 		s.TransferLeader(C, L.ID)
 		s.stabilize(6)
 	}
-	if !s.electAmong(L) {
+	tC := s.termOf(C)
+	for i := 0; i < 4 && L.Up && !s.leadsAbove(L, tC-1); i++ {
+		if i > 0 {
+			s.expireLeases(L)
+		}
+		s.TickUntilCampaign(L)
+		s.stabilize(6)
+	}
+	if !s.leadsAbove(L, tC-1) || tC == 0 {
 		if d.Int(0, 1, "heal") == 1 {
 			s.Heal()
 		}
@@ -291,7 +389,7 @@ func (s *Sim) Comeback(p *Profile) {
 	}
 	s.stabilize(4)
 	if stallF {
-		F.SlowAppend = false
+		stall(false)
 		stallF = false
 		s.stabilize(3)
 	}
@@ -395,4 +493,8 @@ func (s *Sim) CrashRecampaign(p *Profile) {
 		}
 	}
 	s.stabilize(6)
+	// the follower that heard the first candidacy takes over
+	if d.Int(0, 2, "f1leads") == 0 && F1.Up {
+		s.electAmong(F1)
+	}
 }
